@@ -202,3 +202,73 @@ def random_skeleton(seed, n=4, length=10, rho=0.2):
                               random_seed=seed + 1)
     ts = msprime.sim_mutations(ts, rate=0.15, random_seed=seed + 1)
     return ts
+
+
+# ---------------------------------------------------------------- all tree shapes
+
+def _shapes(n):
+    """Canonical rooted tree shapes with n leaves (every internal node has >= 2 children),
+    as nested tuples; a leaf is ()."""
+    if n == 1:
+        return [()]
+    out = set()
+
+    def parts(m, maxpart):
+        # integer partitions of m into parts <= maxpart, at least 2 parts overall handled by caller
+        if m == 0:
+            yield []
+            return
+        for p in range(min(m, maxpart), 0, -1):
+            for rest in parts(m - p, p):
+                yield [p] + rest
+
+    for part in parts(n, n - 1):
+        if len(part) < 2:
+            continue
+        pools = [_shapes(p) for p in part]
+        for combo in itertools.product(*pools):
+            out.add(tuple(sorted(combo, key=repr)))
+    return sorted(out, key=repr)
+
+
+def shape_ts(shape, L=10.0, mutate=True):
+    """Build a single-tree tree sequence from a nested-tuple shape; one mutation on every
+    second edge so that counts differ between edges."""
+    nodes, edges = [], []
+    leaves = []
+
+    def count_leaves(s):
+        return 1 if s == () else sum(count_leaves(c) for c in s)
+
+    nleaf = count_leaves(shape)
+    next_leaf = [0]
+    internal = []
+
+    def build(s):
+        if s == ():
+            i = next_leaf[0]
+            next_leaf[0] += 1
+            return i, 0.0
+        kids = [build(c) for c in s]
+        t = max(k[1] for k in kids) + 1.0
+        idx = nleaf + len(internal)
+        internal.append((idx, t))
+        for k, _ in kids:
+            edges.append((0, L, idx, k))
+        return idx, t
+
+    build(shape)
+    nodes = [(1, 0.0)] * nleaf + [(0, t) for _, t in sorted(internal)]
+    sites, muts = [], []
+    if mutate:
+        for j, (_, _, p, c) in enumerate(edges):
+            if j % 2 == 0:
+                sites.append(0.5 + j)
+                muts.append((len(sites) - 1, c))
+    return _ts(L if not sites else max(L, sites[-1] + 1), nodes,
+               [(0, (L if not sites else max(L, sites[-1] + 1)), p, c) for _, _, p, c in edges],
+               sites, muts)
+
+
+def all_shapes(n):
+    return _shapes(n)
